@@ -23,6 +23,8 @@ pub struct Nt {
     pub name: String,
     pub public: bool,
     pub inline: bool,
+    /// the nonterminal has type `()` (its value is not handed to the parent's action)
+    pub unit: bool,
     pub prods: Vec<Prod>,
 }
 
@@ -87,7 +89,11 @@ impl B {
         B { name: name.to_string(), terms: vec![], nts: vec![], next_id: 1, rec: false, regex: vec![], empty_match: false }
     }
     fn nt(&mut self, name: &str, public: bool, inline: bool) -> usize {
-        self.nts.push(Nt { name: name.to_string(), public, inline, prods: vec![] });
+        self.nts.push(Nt { name: name.to_string(), public, inline, unit: false, prods: vec![] });
+        self.nts.len() - 1
+    }
+    fn nt_unit(&mut self, name: &str, inline: bool) -> usize {
+        self.nts.push(Nt { name: name.to_string(), public: false, inline, unit: true, prods: vec![] });
         self.nts.len() - 1
     }
     /// production written as words: "T" names are nonterminals if they match an nt name,
@@ -348,14 +354,50 @@ fn hand_specs() -> Vec<Spec> {
         b.rx("num", "[0-9]+", "42", false);
         b.rx("word", "[a-z]*", "abc", true);
         b.rx("str", "\\x22[^\\x22]*\\x22", "\"s t\"", false);
+        b.rx("uni", "[^\\x00-\\x7f]+", "\u{feff}\u{e9}", false);
         let s2 = b.nt("Bind", true, false);
         let vnt = b.nt("Valx", false, false);
         b.p(s2, "LET word = Valx ; ?");
         b.p(s2, "SHOW Valx");
+        b.p(s2, "uni = Valx ;");
         b.p(vnt, "num");
         b.p(vnt, "str");
         b.p(vnt, "( Valx )");
         b.p(vnt, "Valx + num ?");
+        v.push(b.done());
+    }
+    {
+        // two nonterminals with the same right-hand side, told apart by the lookahead alone: one is
+        // reduced before every terminal, the other only at end of input
+        let mut b = B::new("lookahead");
+        let it = b.nt("Itemk", true, false);
+        let k = b.nt("Keyk", false, false);
+        let tg = b.nt("Tagk", false, false);
+        let vl = b.nt("Valk", false, false);
+        b.p(it, "Keyk = Valk ?");
+        b.p(it, "Keyk Valk");
+        b.p(it, "Tagk");
+        b.p(k, "w");
+        b.p(tg, "w ?");
+        b.p(vl, "w");
+        b.p(vl, "n");
+        v.push(b.done());
+    }
+    {
+        // unit-typed nonterminals (type `()`), inlined and not, with fallible actions
+        let mut b = B::new("unitinl");
+        let p = b.nt("Progu", true, false);
+        let st = b.nt("Stu", false, false);
+        let gu = b.nt_unit("Gu", true);
+        let hu = b.nt_unit("Hu", false);
+        b.p(gu, "x ?");
+        b.p(gu, "c");
+        b.p(hu, "d ?");
+        b.p(hu, "e Hu");
+        b.p(st, "a Gu n ; ?");
+        b.p(st, "b Gu? n ;");
+        b.p(st, "q Hu Gu ;");
+        b.p(p, "Stu+");
         v.push(b.done());
     }
     {
@@ -438,7 +480,7 @@ fn generated_specs(count: usize) -> Vec<Spec> {
                 prods.push(Prod { id, syms, fallible: r.below(3) == 0 });
                 id += 1;
             }
-            nts.push(Nt { name: format!("N{ni}"), public: ni == 0, inline: leaf && ni > 0 && r.below(2) == 0, prods });
+            nts.push(Nt { name: format!("N{ni}"), public: ni == 0, inline: leaf && ni > 0 && r.below(2) == 0, unit: false, prods });
         }
         // a second public symbol now and then
         if r.below(3) == 0 && nnt > 2 {
@@ -534,7 +576,7 @@ pub fn render(spec: &Spec, var: &Variant) -> String {
         if nt.inline {
             g.push_str("#[inline]\n");
         }
-        g.push_str(&format!("{}{}: Node = {{\n", if nt.public { "pub " } else { "" }, nt.name));
+        g.push_str(&format!("{}{}: {} = {{\n", if nt.public { "pub " } else { "" }, nt.name, if nt.unit { "()" } else { "Node" }));
         for p in &nt.prods {
             let mut names = Vec::new();
             let mut line = String::from("   ");
@@ -546,6 +588,7 @@ pub fn render(spec: &Spec, var: &Variant) -> String {
                             _ => line.push_str(&format!(" {}", rust_string(&spec.terminals[*i]))),
                         }
                     }
+                    Sym::N(i) if spec.nts[*i].unit => line.push_str(&format!(" {}", spec.nts[*i].name)),
                     Sym::N(i) => {
                         line.push_str(&format!(" <v{k}:{}>", spec.nts[*i].name));
                         names.push(format!("v{k}"));
@@ -553,6 +596,14 @@ pub fn render(spec: &Spec, var: &Variant) -> String {
                     Sym::Recover => {
                         line.push_str(&format!(" <v{k}:!>"));
                         names.push(format!("ctx.rec(v{k})"));
+                    }
+                    Sym::Star(i) | Sym::Plus(i) | Sym::Opt(i) if spec.nts[*i].unit => {
+                        let suffix = match s {
+                            Sym::Star(_) => "*",
+                            Sym::Plus(_) => "+",
+                            _ => "?",
+                        };
+                        line.push_str(&format!(" {}{suffix}", spec.nts[*i].name));
                     }
                     Sym::Star(i) | Sym::Plus(i) | Sym::Opt(i) => {
                         let suffix = match s {
@@ -567,9 +618,13 @@ pub fn render(spec: &Spec, var: &Variant) -> String {
                 }
             }
             let kids = names.join(", ");
-            if p.fallible {
-                // the error an action returns may be ANY ParseError variant, not only `User`
+            // the error an action returns may be ANY ParseError variant, not only `User`
+            if p.fallible && nt.unit {
+                line.push_str(&format!(" =>? ctx.try_act({}, vec![{kids}]).map(|_| ()).map_err(|error| ctx.wrap(error)),\n", p.id));
+            } else if p.fallible {
                 line.push_str(&format!(" =>? ctx.try_act({}, vec![{kids}]).map_err(|error| ctx.wrap(error)),\n", p.id));
+            } else if nt.unit {
+                line.push_str(&format!(" => {{ ctx.act({}, vec![{kids}]); }},\n", p.id));
             } else {
                 line.push_str(&format!(" => ctx.act({}, vec![{kids}]),\n", p.id));
             }
